@@ -679,6 +679,14 @@ func (cs *ConsensusState) addVote(vote *types.Vote, peerID p2p.ID) (bool, error)
 	}
 	cs.evsw.FireEvent(types.EventVote, vote)
 
+	// Once +2/3 precommits for a block have been seen (commit step) the node only waits for the block:
+	// the vote is recorded, but +2/3-any votes of a later round must not take the node out of the
+	// commit step (it would forget the commit's context and never finalize, even with the block and
+	// all the precommits in hand).
+	if cs.Step == cstypes.RoundStepCommit {
+		return added, err
+	}
+
 	switch vote.Type {
 	case kproto.PrevoteType:
 		prevotes := cs.Votes.Prevotes(vote.Round)
